@@ -687,7 +687,16 @@ impl InvalidLiquidToken<'_> {
         // Reparses from the line where invalid liquid started, in order
         // to raise the error.
         let mut error = match LiquidParser::parse(Rule::LiquidFile, &text) {
-            Ok(_) => panic!("`LiquidParser::parse` should fail in InvalidLiquidTokens."),
+            // The rebuilt text is not always the original (the line prefix is cut by a
+            // character column): when it happens to parse, report the invalid token itself.
+            Ok(_) => {
+                return Err(convert_pest_error(::pest::error::Error::new_from_span(
+                    ::pest::error::ErrorVariant::CustomError {
+                        message: "invalid liquid".to_owned(),
+                    },
+                    invalid_token_span,
+                )));
+            }
             Err(error) => error,
         };
 
